@@ -7,6 +7,8 @@
 #   switchif : every tagless switch (no init, fallthrough or break) turned into an if / else-if chain
 #   splitor  : every `if a || b {...; return}` (no else) turned into two ifs with the same body
 #   hoistcond: every `if f(x) {..}` in a statement list turned into `cond_N := f(x); if cond_N {..}`
+#   dropelse : `if c {…; return} else {B}` turned into `if c {…; return}; B`
+#   addelse  : `if c {…; return}; rest` turned into `if c {…; return} else {rest}`
 # it builds a scratch worktree of /repo, applies the transformation to every non-test file of
 # the module (bin/renamelocals), checks that the tree still builds, and runs every property's
 # quick check against it. All must stay silent and match the same known findings.
@@ -17,7 +19,7 @@ export GOFLAGS=-mod=mod GOPROXY=off
 ./build.sh >/dev/null
 (cd sa && go build -o ../bin/renamelocals ./cmd/renamelocals) || exit 2
 rc=0
-for mode in ${MODES:-rename swapeq invertif nestif switchif splitor hoistcond}; do
+for mode in ${MODES:-rename swapeq invertif nestif switchif splitor hoistcond dropelse addelse}; do
   WT=$(mktemp -d /tmp/wt-$mode.XXXX); rmdir $WT
   git -C /repo worktree add --detach $WT HEAD >/dev/null 2>&1 || exit 2
   ./bin/renamelocals -$mode $WT >/dev/null && (cd $WT && go build ./...) || { echo "$mode: transformed tree does not build"; git -C /repo worktree remove --force $WT; exit 2; }
